@@ -96,6 +96,11 @@ func AddHooks(ctx *core.Context, cronner Cronner, state core.State) error {
 
 		// Yikes!  The caller of this hook already has the state lock!
 		fact, err := state.Get(ctx, id)
+		if _, missing := err.(*core.NotFoundError); missing {
+			// Nothing there (or it has expired), so nothing
+			// could be scheduled.
+			return nil
+		}
 		if err != nil {
 			return err
 		}
